@@ -295,6 +295,32 @@ Definition remove_front (w : world) (h : id) (is_sub : id -> bool) : bool :=
   | None => false
   end.
 
+(* K04-front for the iterated removals of remove_from_file / remove_file, evaluated statically (conservative): some
+   element of a named type has a SHORT-NAME element at a position other than the first.  In such a world a removal
+   can bring a SHORT-NAME to the front; in a world without, no sequence of removals can (the items that remain keep
+   their order).  Real tables: only the mixed-content named types (ECUC-QUERY-EXPRESSION ...) admit it. *)
+Definition late_short_at (w : world) (i : id) : bool :=
+  named_node w i &&
+  match w_nodes w i with
+  | Some n => match n_content n with
+              | _ :: rest => existsb (fun it => match it with CElem s => is_short_node w s | CData _ => false end) rest
+              | [] => false
+              end
+  | None => false
+  end.
+Definition late_short (w : world) : bool :=
+  existsb (late_short_at w) (map N.of_nat (seq 0 (N.to_nat (w_next w)))).
+
+(* remove_file of the last file of a model (every sub-element of the root is removed, the indexes are reset) *)
+Definition last_file (w : world) (m f : N) : bool :=
+  match model_at w m with
+  | Some x => match index_of (N.eqb f) (m_files x) with
+              | Some pos => is_empty (swap_remove_at (m_files x) pos)
+              | None => false
+              end
+  | None => false
+  end.
+
 Definition copy_container (w : world) (other : id) : bool :=
   negb (identifiable T w other) && existsb (identifiable T w) (walk (S (N.to_nat (w_next w))) w other).
 
@@ -319,6 +345,7 @@ Definition Known04 (w : world) (o : op) : bool :=
     | Some n => match n_content n with _ :: CElem s :: _ => is_short_node w s | _ => false end
     | None => false
     end
+  | OpRemoveFromFile _ _ | OpRemoveFile _ _ => late_short w
   | _ => false
   end.
 
@@ -326,7 +353,8 @@ Definition Known04 (w : world) (o : op) : bool :=
 Definition Pending04 (w : world) (o : op) : bool :=
   match o with
   | OpCopy _ _ | OpCopyAt _ _ _ | OpMove _ _ | OpMoveAt _ _ _
-  | OpSetItemName _ _ | OpRemoveFile _ _ | OpRemoveFromFile _ _ => true
+  | OpSetItemName _ _ => true
+  | OpRemoveFile m f => last_file w m f
   | _ => false
   end.
 
